@@ -46,7 +46,7 @@ def message_retry(ctx: Ctx) -> None:
     kinds = flow.NORMAL_KINDS + ("raise",)
     for action, guarded in (("retry", True), ("force_retry", False)):
         f = ctx.func(f"{C.MESSAGE}.{action}")
-        g = ctx.cfg(f)
+        g = flow.inline(f, ctx.res, 3, lambda n, cal: cal.cls is not None and cal.cls.qualname == C.MESSAGE and cal.name not in ("ack", "nack", "reject", "reschedule", "retry", "force_retry"))
         facts = message_action_facts(ctx, f, g)
         rq = [n for n, op in facts["broker_calls"] if op == "requeue"]
         ctx.require(len(rq) == 1, f"{f.qualname}: expected one requeue call, found {len(rq)}")
@@ -72,7 +72,7 @@ def message_retry(ctx: Ctx) -> None:
                   f"Message.{action} does not requeue self.parameters._prepare_retry(...)", node=b, instance=f"Message.{action}: prepare_retry")
         if prep is not None:
             a = C.arg(prep, 0, "next_retry")
-            ok = a is not None and "next_retry" in C.names_in(a)
+            ok = a is not None and any("next_retry" in C.names_in(x) for x in C.expand_locals(f, a))
             ctx.check(ok, "R-C04-MSG", f, f"next_retry forwarded in Message.{action}", "the caller's back-off is honoured",
                       f"Message.{action} ignores its next_retry argument", node=b, instance=f"Message.{action}: next_retry forwarded")
         k = C.arg(call, 0, "key")
@@ -90,8 +90,17 @@ def message_retry(ctx: Ctx) -> None:
         ok = False
         why = "next_retry is not forwarded"
         if a is not None:
-            pol = [c for c in ast.walk(a) if isinstance(c, ast.Call) and isinstance(c.func, ast.Attribute) and c.func.attr == "retry_policy"]
-            uses_arg = "next_retry" in C.names_in(a)
+            # the expression itself, the locals it uses, and the bodies of private helpers it calls
+            exprs = list(C.expand_locals(f, a))
+            for x in list(exprs):
+                for c in ast.walk(x):
+                    if isinstance(c, ast.Call):
+                        for cal in ctx.res.callees(f, c):
+                            if cal.cls is not None and cal.cls.qualname == C.MSGDEP:
+                                exprs += [r.value for r in ast.walk(cal.node) if isinstance(r, ast.Return) and r.value is not None]
+                                exprs += [arg_ for arg_ in c.args] + [k.value for k in c.keywords]
+            pol = [c for x in exprs for c in ast.walk(x) if isinstance(c, ast.Call) and isinstance(c.func, ast.Attribute) and c.func.attr == "retry_policy"]
+            uses_arg = any("next_retry" in C.names_in(x) for x in exprs)
             if pol and uses_arg:
                 pa = C.arg(pol[0], 0, "retry_number")
                 ok = pa is not None and is_plus_one_of(pa, "already_tried")
